@@ -6,6 +6,10 @@
    run <retries> <keep> <pre -|C|D> <first> <step>*
         outcome tokens: o | r<id> | f<id>;  step tokens: X | C | D | <outcome> | tC:<outcome> | tD:<outcome>
         -> "<runs> <nil|err|more> <main> <is-bits> <n others> <others...>"
+   cfgrun <retries> <keep> <backoff> <max> <jit> <deadline ns from start | -> <pre> <first> <draw:step>*
+        step tokens as above without X; the history is timed by Model.sched (ideal clock), the deadline
+        pre-check is decided by the model from the CONFIGURED BackOff/Max
+        -> same answer, then " ; " and the pauses the loop asks for in the iterations scripted
            is-bits: errors.Is against RetriesExceeded, WaitExceedsDeadline, Canceled, DeadlineExceeded,
            Unrelated, user0..user7 *)
 open Model
@@ -64,6 +68,16 @@ let targets =
   [ERetriesExceeded; EWaitExceedsDeadline; ECtx Canceled; ECtx DeadlineExceeded; EUnrelated]
   @ List.map (fun i -> EUser (nat_of_int i)) [0; 1; 2; 3; 4; 5; 6; 7]
 
+let show_result r =
+  let n = int_of_nat (runs r) in
+  match r.res with
+  | RetNil -> Printf.sprintf "%d nil" n
+  | RetErr fe | RetMore fe ->
+    let kind = (match r.res with RetErr _ -> "err" | _ -> "more") in
+    let bits = String.concat "" (List.map (fun t -> if ferr_is fe t then "1" else "0") targets) in
+    Printf.sprintf "%d %s %s %s %d%s" n kind (err_name fe.main) bits (List.length fe.others)
+      (String.concat "" (List.map (fun e -> " " ^ err_name e) fe.others))
+
 let nw_line f jit base mx n0 rs =
   let jit = jit = "1" in
   let base = zs base and mx = zs mx in
@@ -100,14 +114,27 @@ let () =
        | "run" :: retries :: keep :: pre :: first :: steps ->
          let pre = match pre with "C" -> Some Canceled | "D" -> Some DeadlineExceeded | _ -> None in
          let r = retry_run (zs retries) (zs keep) pre (outcome_of first) (List.map step_of steps) in
-         let n = int_of_nat (runs r) in
-         (match r.res with
-          | RetNil -> Printf.printf "%d nil\n" n
-          | RetErr fe | RetMore fe ->
-            let kind = (match r.res with RetErr _ -> "err" | _ -> "more") in
-            let bits = String.concat "" (List.map (fun t -> if ferr_is fe t then "1" else "0") targets) in
-            Printf.printf "%d %s %s %s %d%s\n" n kind (err_name fe.main) bits (List.length fe.others)
-              (String.concat "" (List.map (fun e -> " " ^ err_name e) fe.others)))
+         print_endline (show_result r)
+       | "cfgrun" :: retries :: keep :: backoff :: mx :: jit :: dl :: pre :: first :: steps ->
+         let pre = match pre with "C" -> Some Canceled | "D" -> Some DeadlineExceeded | _ -> None in
+         let cfg = { c_backoff = zs backoff; c_max = zs mx; c_jitter = (jit = "1") } in
+         let dl = if dl = "-" then None else Some (zs dl) in
+         let evs = List.map (fun tok ->
+             match String.index_opt tok ':' with
+             | None -> failwith "bad timed step"
+             | Some i ->
+               let r = zs (String.sub tok 0 i) in
+               let e = String.sub tok (i + 1) (String.length tok - i - 1) in
+               (r, (match step_of e with
+                    | StCtx c -> WCtx c
+                    | StRun o -> WRun o
+                    | StRunCtxEnded (c, o) -> WRunCtxEnded (c, o)
+                    | StExceeds -> failwith "X is decided by the model"))) steps in
+         let one = Zpos XH in
+         let ts = sched cfg dl one Z0 evs in
+         let r = retry_run_cfg cfg (zs retries) (zs keep) pre (outcome_of first) ts in
+         print_endline (show_result r ^ " ;" ^
+                        String.concat "" (List.map (fun p -> " " ^ sz p) (pauses cfg one ts)))
        | [""] -> ()
        | _ -> print_endline ("error: bad request: " ^ line))
     done
